@@ -47,6 +47,13 @@ func fidelityCorpus(fe *fidEngine) {
 			Req: level{PathP: []single{s1("idx", "B")}}, Client: level{PathP: []single{s1("id", "A")}}}
 		fe.runConfig(c, cf, 4)
 	})
+	// an empty request-level value is a value: it overrides the client-level one
+	e.Corpus("path-param-empty-request-value-wins", func(c *ev.Case) {
+		cf := &config{Method: "GET", Tmpl: tmpl("/docs/", ":lang", "/report", ":ext"),
+			Client: level{PathP: []single{s1("lang", "en"), s1("ext", ".pdf")}},
+			Req:    level{PathP: []single{s1("ext", "")}}}
+		fe.runConfig(c, cf, 4)
+	})
 	e.Corpus("precedence-all-kinds", func(c *ev.Case) {
 		cf := &config{Method: "POST", UseBase: true, Tmpl: tmpl("/p/", ":name"),
 			Client: level{Hdr: []multi{m1("X-Shared", 1, "c")}, Query: []multi{m1("q", 1, "c")},
